@@ -4,19 +4,27 @@ from vlib import common as C, coapgen as G
 
 MANIFEST = {
     "category": "proof",
-    "text": "Partial. S is an independent RFC 8613 implementation in Lean (CBOR subset, info/HKDF-SHA-256 key derivation, nonce, "
+    "text": "S is an independent RFC 8613 implementation in Lean (CBOR subset, info/HKDF-SHA-256 key derivation, nonce, "
             "external_aad/Enc_structure, option compression, class E/U split, AES-128-CCM-16-64 written from FIPS 197/180-4, RFC 2104/5869/"
-            "3610). Theorems (all ∀): ccm_roundtrip (for every block function), tamper_detected_iff_tag_mismatch, "
-            "option_value_roundtrip, split_merge_inverse, aad_eq_spec (libcoap's AAD construction M = S), and "
-            "unprotect_protect_partial (unprotect ctxR (protect ctxS m) = ok m for requests and matching contexts, with the RFC 7252 "
-            "option-codec round-trip of the inner message as a hypothesis). On every run the real libcoap protects and unprotects "
+            "3610). Theorems (all ∀): unprotect_protect (unprotect ctxR (protect ctxS m) = ok m for requests, and = m with the "
+            "recipient-derived Observe value for responses with or without their own Partial IV; every block cipher, matching "
+            "contexts, every message with sorted encodable options — the inner RFC 7252 option-codec round trip is proved from C01's "
+            "13/14-scheme lemmas), ccm_roundtrip (for every block function), tamper_detected_iff_tag_mismatch, option_value_roundtrip, "
+            "split_merge_inverse(_response); injectivity of what the tag covers: cbor_head_injective/cbor_bstr_injective (injective and "
+            "prefix-free, arguments < 2^64), aad_injective (external_aad and Enc_structure determine alg, kid, piv), nonce_injective "
+            "(minimal-length Partial IVs of any lengths) with distinct_piv_distinct_nonce for C15; libcoap's helpers (M) equal S: "
+            "aad_eq_spec, nonce_eq_spec, option_value_eq_spec (encode and decode), split_eq_spec (protect split and decrypt merge), "
+            "info_eq_spec. On every run the real libcoap protects and unprotects "
             "generated exchanges (all methods/response codes, option mixes incl. Observe/Block/Proxy-Scheme, payload to 1 KiB, ids 0..7 "
             "bytes, ID context/salt present/absent, Partial IV 0..2^40-2) and its datagrams and recovered messages must equal S's byte for "
             "byte (RFC 8613 Appendix C vectors included); every single-bit flip and truncation of sampled datagrams must be rejected "
             "where the RFC protects the bit (a test); helpers (option value, AAD, nonce, key derivation) are compared with M and S.",
     "note": "Not theorems: cryptographic strength / unforgeability ('every modification is rejected' is proved only as 'rejected iff "
-            "the recomputed tag differs'); nonce_eq_spec, nonce_injective for Partial IVs of different lengths (nonce_injective_partial covers equal lengths), aad_injective/cbor_bstr_injective, option_value_eq_spec and the "
-            "response half of unprotect_protect are covered by the differential runs only (statements in design/C14.md). GnuTLS's AES-CCM/"
+            "the recomputed tag differs'). M covers libcoap's OSCORE helper functions (CBOR writers, AAD, nonce, option value, option "
+            "split/merge, info); that the whole of coap_oscore_new_pdu_encrypted / coap_oscore_decrypt_pdu equals S's protect / unprotect "
+            "is established by the differential runs, not by proof. The M = S theorems hold inside libcoap's limits (id <= 7 bytes, "
+            "Partial IV <= 5 bytes, ID Context absent or 1..255 bytes, no Proxy-Uri, sorted options); the examples in Props/C14.lean show "
+            "the limits are sharp. GnuTLS's AES-CCM/"
             "HMAC are an oracle on the implementation side, cross-checked against S's own primitives on every case; S's primitives are "
             "tested against FIPS/RFC vectors. 'No handler runs' rests on coap_dispatch() returning when coap_oscore_decrypt_pdu() returns "
             "NULL (read, not run). Trusted: Lean kernel (+ propext, Classical.choice, Quot.sound), harness/generators, the hand "
@@ -26,7 +34,11 @@ MANIFEST = {
 LEAN_MODULES = ["CoapVerif.Props.C14"]
 NAMESPACE = "Coap.C14"
 REQUIRED_THEOREMS = ["ccm_roundtrip", "tamper_detected_iff_tag_mismatch", "option_value_roundtrip", "aad_eq_spec",
-                     "split_merge_inverse", "unprotect_protect_partial", "nonce_injective_partial"]
+                     "split_merge_inverse", "split_merge_inverse_response", "unprotect_protect_request_of_plain",
+                     "nonce_injective_same_length", "cbor_head_injective", "cbor_bstr_injective", "cbor_items_injective",
+                     "aad_injective", "aad_injective_impl", "nonce_eq_spec", "nonce_injective", "pivBytes_minimal_encoding",
+                     "distinct_piv_distinct_nonce", "distinct_pivs_distinct_nonces", "option_value_eq_spec", "split_eq_spec",
+                     "info_eq_spec", "unprotect_protect_request", "unprotect_protect_response", "unprotect_protect"]
 RULE = ("exchanges (one request and 0-3 responses/notifications per line) between a client and a server OSCORE context set up "
         "from master secret / salt / ID context / ids 0..7 bytes: all request methods and response codes, inner/outer option "
         "mixes incl. Observe, Block, Proxy-Scheme, Uri-Host/Port, Hop-Limit, No-Response, unknown options, payload 0..1 KiB, "
